@@ -25,6 +25,38 @@ CATEGORY_KEY = {
 }
 
 
+def _selector_wrappers(model):
+    """[(name roles, statements, expression handed on as the selector)] for Plate.__getitem__ and for the part of
+    PlateSlicer.__init__ in front of the call of Slicer.__init__."""
+    out = []
+    gi = model.classes['Plate'].methods.get('__getitem__') if 'Plate' in model.classes else None
+    if gi is not None:
+        body = [st for st in gi.node.body if not (isinstance(st, ast.Expr) and isinstance(st.value, ast.Constant))]
+        names = gi.param_names(drop_self=False)
+        last = body[-1] if body else None
+        if isinstance(last, ast.Return) and isinstance(last.value, ast.Call) and getattr(last.value.func, 'id', '') == 'PlateSlicer' \
+                and len(last.value.args) == 2 and len(names) == 2:
+            out.append(({names[0]: 'plate', names[1]: 'item'}, body[:-1], last.value.args[1]))
+        else:
+            raise AnalysisError('Plate.__getitem__ no longer ends in `return PlateSlicer(self, <selector>)`')
+    ps = model.classes.get('PlateSlicer')
+    pinit = ps.methods.get('__init__') if ps is not None else None
+    if pinit is not None:
+        body = [st for st in pinit.node.body if not (isinstance(st, ast.Expr) and isinstance(st.value, ast.Constant))]
+        names = pinit.param_names(drop_self=False)
+        k = [i for i, st in enumerate(body) if any(isinstance(x, ast.Call) and isinstance(x.func, ast.Attribute) and
+                                                    x.func.attr == '__init__' for x in ast.walk(st))]
+        if k and len(names) == 3:
+            call = [x for x in ast.walk(body[k[0]]) if isinstance(x, ast.Call) and isinstance(x.func, ast.Attribute) and
+                    x.func.attr == '__init__'][0]
+            args = list(call.args) + [kw.value for kw in call.keywords]
+            if len(args) >= 4:
+                stmts = [st for st in body[:k[0]] if not (isinstance(st, ast.Assign) and len(st.targets) == 1 and
+                                                          isinstance(st.targets[0], ast.Attribute))]
+                out.append(({names[0]: 'self', names[1]: 'plate', names[2]: 'item'}, stmts, args[3]))
+    return out
+
+
 def selector_grammar(ctx, rule=None):
     """The selector grammar of Slicer.__init__ (all documented forms, every path).  With `rule` every obligation is filed
     under that one rule id (for a property that borrows the grammar)."""
@@ -45,7 +77,8 @@ def selector_grammar(ctx, rule=None):
             names = pinit.param_names()
             if k and len(names) == 2 and body[k[0] + 1:]:
                 post = (names[0], names[1], body[k[0] + 1:])
-        stats, problems = idx.explore(slicer.node, post=post)
+        pre = _selector_wrappers(model)
+        stats, problems = idx.explore(slicer.node, post=post, pre=pre)
     except idx.Incomplete as exc:
         raise AnalysisError(f"index typing cannot interpret slicer.py: {exc}") from exc
     init = slicer.methods['__init__']
